@@ -114,8 +114,8 @@ def ob_ninja_order():
         nb = M.nb
         from harness.c03 import Out
         # two spellings of one file (a, ./a) and a symbolic 3-character path: a writer that merges deps 'up to normalisation' must not let the survivor depend on the order
-        deps = [sym_str(3, 'd0', alphabet='a./'), sym_str(1, 'd1', alphabet='ab'), 'a', './a']
-        od = ['o2', 'o1', sym_str(1, 'o', alphabet='ab')]
+        deps = [sym_str(3, 'd0', alphabet='a./'), sym_str(1, 'd1', alphabet='abA'), 'a', './a', 'A']       # a / A: equal under a case-folding sort key
+        od = ['o1', 'o01', sym_str(1, 'o', alphabet='ab')]       # o1 / o01: equal under a 'natural' (numeric) sort key
 
         def write(order_d, order_o):
             e = nb.NinjaBuildElement(set(), ['out'], 'phony', ['in'])
@@ -125,7 +125,7 @@ def ob_ninja_order():
         had = nb.__dict__.get('set', None)
         if concrete(): nb.set = IOSet            # native replay: insertion-ordered stand-in = an adversarial hash order (see env-hash-order)
         try:
-            a = write([0, 1, 2, 3], [0, 1, 2]); b = write(permutation(4, 'pd'), permutation(3, 'po'))
+            a = write([0, 1, 2, 3, 4], [0, 1, 2]); b = write(permutation(5, 'pd'), permutation(3, 'po'))
         finally:
             if concrete():
                 if had is None: del nb.set
